@@ -58,10 +58,10 @@ def prog_consts(prog):
     return _CONSTS
 
 
-def decorate(M, snap, sym_lines=False, sym_names=False, text='', sym_digits=False):
+def decorate(M, snap, sym_lines=False, sym_names=False, text='', sym_digits=False, sym_cols=False):
     """make token lines / identifier texts symbolic.  returns (assumptions, info)"""
     asm = []
-    info = {'lines': {}, 'names': {}, 'digits': {}}
+    info = {'lines': {}, 'names': {}, 'digits': {}, 'cols': {}}
     toks = []
     st = M.load(snap.stream)
     # CommonTokenStream: channel, fetchedEOF, index, tokenSource, tokens, lazyInit
@@ -85,6 +85,22 @@ def decorate(M, snap, sym_lines=False, sym_names=False, text='', sym_digits=Fals
                 asm.append(L >= pl)
             prev = (L, orig)
             bt[TOK_LINE] = L
+        if sym_cols:
+            # the column of every token is a variable as well (below 4096): on one line columns grow by at least the width of the token + 1
+            pc_ = None
+            for i, c in enumerate(toks):
+                bt = c.v[0]
+                if bt[TOK_TYPE] == -1:
+                    continue
+                C = z3.BitVec('col_%d' % i, 64)
+                asm.append(C >= 0)
+                asm.append(z3.ULT(C, 4096))
+                width = max(1, (bt[TOK_STOP] - bt[TOK_START] + 1) if isinstance(bt[TOK_START], int) and isinstance(bt[TOK_STOP], int) else 1)
+                if pc_ is not None:
+                    asm.append(z3.Implies(info['lines'][i][0] == info['lines'][pc_[0]][0], C >= pc_[1] + pc_[2] + 1))       # at least one blank between two tokens of a line
+                info['cols'][i] = (C, bt[symgo.TOK_COLUMN])
+                bt[symgo.TOK_COLUMN] = C
+                pc_ = (i, C, width)
     elif sym_lines:
         # only the listed tokens float between their neighbours' (concrete) lines
         for i in sorted(sym_lines):
@@ -523,7 +539,10 @@ def c12_text(t, dump, tier):
         M.effects = []
         M.stdout = []
         outs = GoMap()
-        for g in ('lua', 'rust', 'go', 'java', 'python', 'cpp'):
+        # which targets are requested is a choice of the path: all six, none at all (compile used as a pure checker), one only
+        sel = c.choose_free(3, 'outsel') if t.faults else 0
+        holder['sel'] = sel
+        for g in (('lua', 'rust', 'go', 'java', 'python', 'cpp'), (), ('python',))[sel]:
             outs.set(go_str(g), go_str('/out/' + g))
         try:
             err = M.call(MOD + '/cmd.Compile', [go_str('in.dsl'), outs])
@@ -580,7 +599,8 @@ def c12_text(t, dump, tier):
         if cerr == 'PANIC':
             continue
         if cerr is None:
-            res.append(BFinding('C12', 'cmd:Compile', t.tag, 'no-refusal', 'diagnostics exist but Compile returns nil', {'text': t.text}))
+            res.append(BFinding('C12', 'cmd:Compile', t.tag, 'no-refusal', 'diagnostics exist but Compile returns nil (requested targets: %s)' % (('all six', 'none', 'python only')[holder.get('sel', 0)]),
+                                {'text': t.text, 'targets': [['lua', 'rust', 'go', 'java', 'python', 'cpp'], [], ['python']][holder.get('sel', 0)]}))
         if any(e[0] in ('WriteFile', 'Create', 'Write', 'MkdirAll') for e in effects):
             res.append(BFinding('C12', 'cmd:Compile', t.tag, 'writes-on-error', 'files are written although diagnostics exist: %s' % effects[:3], {'text': t.text}))
     # the same faults in a file with CRLF line endings, read the way the CLI reads it (the repository's own file reader):
@@ -1251,6 +1271,22 @@ def c12_confirm(f, tier):
         if any(lo <= x <= hi for x in lines):
             return False, 'natively a diagnostic sits at line %s, inside the declaration (lines %d..%d of the witness text)' % ([x for x in lines if lo <= x <= hi][:2], lo, hi)
         return True, 'natively the diagnostics sit at lines %s, the declaration spans lines %d..%d of the witness text' % (lines[:4], lo, hi)
+    if sym == 'no-refusal' and 'targets' in cex:
+        import tempfile, shutil, subprocess
+        binary = build.build_binary()
+        d = tempfile.mkdtemp(prefix='zzc12_', dir=build.cache_dir())
+        try:
+            open(os.path.join(d, 'a.dsl'), 'w').write(text)
+            flags = dict((lang, flag) for lang, flag in build.LANG_FLAGS)
+            args = [binary, 'compile', '-f', os.path.join(d, 'a.dsl')]
+            for g in cex['targets']:
+                args += [flags[{'rust': 'rs', 'python': 'py'}.get(g, g)], os.path.join(d, 'out_' + g)]
+            r = subprocess.run(args, capture_output=True, text=True, timeout=60, errors='replace')
+            return (r.returncode == 0), 'the real binary exits %d on the witness with targets %s' % (r.returncode, cex['targets'])
+        except Exception as e:
+            return None, 'native run failed: %s' % str(e)[:80]
+        finally:
+            shutil.rmtree(d, ignore_errors=True)
     return None, 'no native statement'
 
 
@@ -1326,7 +1362,7 @@ def load_known():
 
 
 EXPLAIN = {
-    'C11': 'every text of the grammar-derived family is parsed by the real ANTLR parser; the parse tree snapshot is loaded into the symbolic go/ssa engine; the formatter runs with symbolic token lines, the visitor with symbolic identifier texts (equalities and map lookups decided by z3), the six generators on the concrete tree; any path ending in a Go panic / stack overflow / fuel exhaustion is a counterexample, rendered to DSL text and replayed on the native code',
+    'C11': 'every text of the grammar-derived family is parsed by the real ANTLR parser; the parse tree snapshot is loaded into the symbolic go/ssa engine; the formatter runs with symbolic token lines, the visitor with symbolic identifier texts (equalities and map lookups decided by z3), the six generators on the concrete tree and once more with the size N of every char[N]/zchar[N] a 64-bit solver variable; any path ending in a Go panic / stack overflow / fuel exhaustion is a counterexample, rendered to DSL text and replayed on the native code',
     'C12': 'the visitor and cmd.Compile run in the symbolic engine with every token line a bit-vector variable (non-decreasing); for each injected fault the obligation "some diagnostic lies on a line of the offending declaration" is a validity query over the line variables; well-formed texts must produce no diagnostic; Compile must refuse before any file effect',
     'C13': 'each generator runs in the symbolic engine with the order of every executed map range a symbolic permutation and the clock a symbolic choice; all paths must produce the same file map',
     'C14': 'one inductive step per generator: G runs on the parsed model in the engine and every object that existed before the call is compared before/after (frame condition); a frame violation is composed (G1;G2 vs G2 alone) into a concrete interference witness',
@@ -1459,6 +1495,17 @@ def finish(prop, tier, seed, t0, fam, results, update_known, extra_cov=None):
                                 'what': 'formatter output, visitor diagnostics (line, message) and generated files (as line multisets, year masked) computed by the engine on its default path vs the real code run natively on the same text'}
     if extra_cov:
         cov.update(extra_cov)
+    extra_counts = collections.Counter()
+    for r in results:
+        for k in ('size_paths', 'pinned_size_paths', 'size_paths_outside_bound', 'column_paths', 'column_obligations'):
+            extra_counts[k] += r['stats'].get(k, 0)
+    if extra_counts.get('size_paths'):
+        cov['symbolic_sizes'] = {'what': 'the size N of each char[N]/zchar[N] (first %d per text) is a 64-bit solver variable, 0 <= N < 10^18: visitor and the six generators run with every comparison and allocation on N decided by z3; where N is printed into text the path forks over the feasible boundary values %s' % (2 if tier == 'quick' else 6, list(SIZE_SPREAD)),
+                                 'paths': extra_counts['size_paths'], 'paths_pinned_to_one_value_of_N': extra_counts['pinned_size_paths'],
+                                 'paths_outside_the_bound_(more_than_64MiB_of_text)': extra_counts['size_paths_outside_bound']}
+    if extra_counts.get('column_paths'):
+        cov['symbolic_columns'] = {'what': 'every token column is a bit-vector variable (any value below 2^20): a branch of the formatter on a column forks, and all paths of one text must print the same text',
+                                   'paths': extra_counts['column_paths'], 'obligations': extra_counts['column_obligations']}
     ev = {'property_id': prop, 'tier': tier, 'seed': seed, 'level': 'other', 'coverage': cov,
           'assumptions': ['the ANTLR lexer/parser is executed natively (tools/vhelper) and its result is taken as the input of the analysed code',
                           'standard-library functions are intrinsics with their documented behaviour on concrete arguments (symv/gointr.py)',
